@@ -159,7 +159,12 @@ def build_arg(node, value, forms, env, allow_special=True):
         return value
     if k == "struct":
         f = forms.next(4)
-        d = {fn: build_arg(kid, value[fn], forms, env) for (fn, _), kid in zip(spec["fields"], node.kids)}
+        d = {}
+        for (fn, _), kid in zip(spec["fields"], node.kids):
+            if isinstance(value[fn], dict) and "$omit" in value[fn]:
+                env.forms_used.add("field_omitted")
+                continue
+            d[fn] = build_arg(kid, value[fn], forms, env)
         if f == 2:
             env.forms_used.add("struct_xobject_other_buffer")
             return node.cls(d, _buffer=env.other_buffer())
@@ -349,6 +354,8 @@ def expected_value(spec, value):
             return ""
         return value
     if k == "scalar":
+        if isinstance(value, dict) and "$omit" in value:
+            return 0.0 if spec["t"].startswith("Float") else 0
         return value
     if k == "struct":
         return {fn: expected_value(ft, value[fn]) for fn, ft in spec["fields"]}
